@@ -152,7 +152,7 @@ def _validate_shard(wd, name, jobs, uniq, mult, max_rejections=3):
         uniq = [i for i in uniq if i > ji]
     return nev, nexec, tl, viol, infra
 
-def validate(res, wd, name, jobs, pid, shards=6):
+def validate(res, wd, name, jobs, pid, shards=8):
     """TLC validates the event histories against SortedSetAbs (SortedSetAbsTrace.tla); identical histories are validated
     once; the histories are dealt to `shards` TLC processes.  After a rejection the rest of the shard is validated again."""
     seen = {}; uniq = []; keys = {}
@@ -169,7 +169,7 @@ def validate(res, wd, name, jobs, pid, shards=6):
         return
     # contiguous shards balanced by size
     total = sum(len(keys[i]) for i in uniq)
-    shards = max(1, min(shards, total // 200000 + 1))
+    shards = max(1, min(shards, total // 150000 + 1))
     parts = [[] for _ in range(shards)]; acc = 0
     for i in uniq:
         parts[min(shards - 1, acc * shards // total)].append(i); acc += len(keys[i])
@@ -229,7 +229,7 @@ def coop_systematic(res, wd, drv, tier, tree="s3", pid=PID, nproc=4):
 
 def coop_random(res, wd, drv, tier, trees=("s3", "s256"), pid=PID, nrandom=None, nproc=2):
     rng = random.Random(seed() * 101 + 13)
-    n = nrandom or (1200 if tier == "quick" else 40000)
+    n = nrandom or (1200 if tier == "quick" else 8000)
     jobs_in = []
     for i in range(n):
         tree = trees[0] if i % 4 else trees[1]
@@ -267,14 +267,14 @@ def coop_random(res, wd, drv, tier, trees=("s3", "s256"), pid=PID, nrandom=None,
 
 def stress(res, wd, drv, tier, trees=("s256", "s3"), pid=PID, runs=None):
     rng = random.Random(seed() * 977 + 5)
-    runs = runs or (10 if tier == "quick" else 80)
+    runs = runs or (10 if tier == "quick" else 40)
     jobs_in = []
     orders = ["sorted", "reverse", "random", "dup", "block"]
     for i in range(runs):
         tree = trees[0] if i % 4 != 3 else trees[1]
         nt = [2, 3, 4, 8, 6, 5, 7, 8][i % 8]
         order = orders[i % len(orders)]
-        total = rng.choice([800, 1500, 2500]) if tier == "quick" else rng.choice([2000, 6000, 12000])
+        total = rng.choice([800, 1500, 2500]) if tier == "quick" else rng.choice([2000, 4000, 8000])
         count = total // nt if order != "dup" else total // 4
         rng_range = rng.choice([0, 0, 5000, 100000])
         if order == "dup" and rng_range:
@@ -288,6 +288,28 @@ def stress(res, wd, drv, tier, trees=("s256", "s3"), pid=PID, runs=None):
         j = jobs[0]
         res.sample({"stress run": j.header, "events": len(j.events), "first": j.events[:6]})
     return jobs
+
+def replay(res, wd, drv, path, pid):
+    """Re-runs the job line(s) of a replay file on the real tree, prints the execution and judges it again."""
+    jobs_in = [l for l in open(path).read().splitlines() if l.strip()]
+    jobs, crashes, _ = run_driver(drv, jobs_in, timeout=600)
+    for j in jobs:
+        print("JOB " + j.header)
+        for e in j.events:
+            print("  event " + json.dumps(e)[:400])
+        for x in j.shapes[-1:]:
+            print("  final shape " + x)
+        for x in j.xs + j.ws + j.errs:
+            print("  " + x)
+    judge(res, wd, "replay", jobs, crashes, pid)
+    validate(res, wd, "MCT_replay", jobs, pid, shards=1)
+    for desc, rp in res.violations:                 # (the registered evidence file is not touched by a replay)
+        print("VIOLATION property=%s replay=%s\n  %s" % (pid, path, desc[:2000]), flush=True)
+    for e in res.infra_errors:
+        print("INFRA-ERROR: " + e[:1000], flush=True)
+    if not res.violations and not res.infra_errors:
+        print("replay accepted: the history is a behaviour of spec/SortedSetAbs.tla and the tree is well-formed")
+    return 1 if res.violations else (2 if res.infra_errors else 0)
 
 def abstract_model(res, wd):
     r = tlc.run_tlc(os.path.join(SPEC, "SortedSetAbsMC.tla"), os.path.join(SPEC, "SortedSetAbsMC.cfg"), wd, timeout=600, workers=2)
@@ -310,8 +332,7 @@ def run(tier, replay_path=None):
     wd = workdir(PID)
     drv = build.harness_cxx(os.path.join(HARNESS, "btreedrv.cpp"), os.path.join(BUILD, "harness", "btreedrv"))
     if replay_path:
-        p = subprocess.run([drv], input=open(replay_path).read(), capture_output=True, text=True)
-        print(p.stdout[-20000:]); return 0
+        return replay(res, wd, drv, replay_path, PID)
     from concurrent.futures import ThreadPoolExecutor
     import time
     from ..common import log
